@@ -3,13 +3,13 @@
 package main
 
 import (
-	"sync"
 	"bytes"
 	"fmt"
 	"io"
 	"net"
 	"strconv"
 	"strings"
+	"sync"
 	"syscall"
 	"time"
 )
